@@ -225,7 +225,7 @@ def p3_compact(out, hook_clauses, ops_clauses, known_clause=None):
         viol = []
         for c, cl in sorted(by_case.items()):
             rel = cl & ops_clauses
-            if known_clause and known_clause[0] in rel and known_clause[1] not in cl:
+            if known_clause and known_clause[0] in rel and known_clause[1] not in cl and "not_kf1" not in cl:
                 known.append(c)
                 rel = rel - {known_clause[0]}
             if rel:
@@ -509,7 +509,7 @@ def ops_check(out, clauses, nontrivial, what, known_clause=None, extra=()):
     viol, known = [], []
     for c, cl in sorted(by_case.items()):
         rel = cl & clauses
-        if known_clause and known_clause[0] in rel and known_clause[1] not in cl:
+        if known_clause and known_clause[0] in rel and known_clause[1] not in cl and "not_kf1" not in cl:
             # rejected as shipped, accepted with the swap-repair switch on
             known.append(c)
             rel = rel - {known_clause[0]}
@@ -1049,7 +1049,9 @@ def c05(out):
     viol, known = [], []
     for c, cl in sorted(by_case.items()):
         rel = cl & {"patch", "patch_rep", "patch_huge", "writer_display", "writer_hunks", "writer_sink", "panic"}
-        if "patch" in rel and "patch_rep" not in rel:
+        if "patch" in rel and "patch_rep" not in rel and "not_kf2" not in cl:
+            # rejected as shipped, accepted with the swap repair on, and byte for byte what the
+            # known mechanism (header extents from the first / last op) renders from the ops
             known.append(c)
             rel.discard("patch")
         if rel:
@@ -1174,7 +1176,7 @@ def replay(pid, path):
     real = []
     for spec, c, cl, ln, line in rej:
         cl = set(cl)
-        if known_pair and known_pair[0] in cl and known_pair[1] not in cl:
+        if known_pair and known_pair[0] in cl and known_pair[1] not in cl and "not_kf2" not in cl and "not_kf1" not in cl:
             print(f"KNOWN-FINDING: property={pid} line {ln}: rejected as shipped ({known_pair[0]}), accepted with the swap repair on "
                   f"(call-site attribution to {'KF-1' if pid == 'C11' else 'KF-2'})")
             cl = cl - {known_pair[0]}
